@@ -25,6 +25,7 @@ pub struct Setup {
     pub vault_fees: [u128; 3],          // protocol fee share of the vaults of uwhale, uusdc, ubtc
     pub routes: [u8; 3],                // for uusdc, uatom, ubtc: 0 none, 1 good, 2 route over a missing pool (simulation fails)
     pub cw20_btc: bool,                 // asset 3 ("ubtc") is a cw20 token with that symbol instead of a native denom
+    pub many_vaults: bool,              // nine further (empty) vaults are registered, whose denoms sort before the three that earn fees
 }
 #[derive(Clone, Debug)]
 pub enum Ev {
@@ -59,6 +60,7 @@ fn build(s: &Setup) -> W {
         w.vault_deposit(&v, A[*a], 1_000_000_000_000).expect("deposit");
         vaults.push(v);
     }
+    if s.many_vaults { for c in "abcdefghi".chars() { w.create_vault(&format!("uaa{c}"), 0, 1_000_000_000_000_000).expect("extra vault"); } }
     let bcode = w.app.store_code(borrower::contract());
     let borrower = w.app.instantiate_contract(bcode, Addr::unchecked(OWNER), &Empty {}, &[], "borrower", None).unwrap();
     for d in A { w.transfer("donor", borrower.as_str(), d, 1u128 << 99).unwrap(); }
@@ -319,7 +321,7 @@ fn gen_setup(rng: &mut Rng) -> Setup {
     let liq = |rng: &mut Rng| { let x = *rng.pick(&[1_000_000u128, 50_000_000, 1_000_000_000_000, 1_000_000_000_000]); (x, x + rng.below128(x)) };
     Setup { grace: 1 + rng.below(3), pair_fees: [pf(rng), pf(rng), pf(rng)], liquidity: [liq(rng), liq(rng), liq(rng)],
             vault_fees: [pf(rng), pf(rng), pf(rng)], routes: [*rng.pick(&[1u8, 1, 1, 1, 0, 2]), *rng.pick(&[1u8, 1, 0, 0, 2]), *rng.pick(&[1u8, 1, 1, 0, 2])],
-            cw20_btc: rng.below(5) < 2 }
+            cw20_btc: rng.below(5) < 2, many_vaults: rng.chance(1, 4) }
 }
 fn gen_rate(rng: &mut Rng) -> u128 { *rng.pick(&[0u128, 1, 10_000_000_000_000_000, 10_000_000_000_000_000, 333_333_333_333_333_333, DEC - 1, DEC, DEC + 5]) }
 
@@ -357,6 +359,7 @@ fn gen_history(out: &mut Out, rng: &mut Rng) {
     out.count(&format!("history:grace_{}", setup.grace));
     out.count(&format!("history:routes_{}{}{}", setup.routes[0], setup.routes[1], setup.routes[2]));
     out.count(if setup.cw20_btc { "history:ubtc_is_cw20" } else { "history:ubtc_is_native" });
+    if setup.many_vaults { out.count("history:twelve_vaults"); }
     x.emit(out);
 }
 
@@ -364,7 +367,7 @@ fn corpus(out: &mut Out) {
     let t0 = GENESIS_DEFAULT;
     let d = DAY_NS;
     let setup = Setup { grace: 1, pair_fees: [50_000_000_000_000_000; 3], liquidity: [(1_000_000_000, 1_000_000_000), (1_000_000_000, 2_000_000_000), (1_000_000, 1_000_000)],
-                        vault_fees: [10_000_000_000_000_000; 3], routes: [1, 0, 1], cw20_btc: false };
+                        vault_fees: [10_000_000_000_000_000; 3], routes: [1, 0, 1], cw20_btc: false, many_vaults: false };
     let evs: Vec<(u64, Ev)> = vec![
         (t0, Ev::Config { admin: true, active: Some(true), rate: Some(10_000_000_000_000_000), dao: Some(true) }),
         (t0, Ev::Config { admin: false, active: Some(false), rate: None, dao: None }),
@@ -400,6 +403,43 @@ pub fn run(args: &Args) {
                 distinct = by hash of the model input".into();
     let mut rng = Rng::new(args.seed);
     corpus(&mut out);
+    distribution_asset_change_probe(&mut out);
     for _ in 0..args.n { gen_history(&mut out, &mut rng); }
     out.finish();
+}
+
+/// The distributor's owner changes the distribution asset between two epochs. The collector must follow the distributor's current
+/// configuration: the new epoch consists of the collector's balance of the NEW distribution asset, that amount reaches the distributor,
+/// and the old distribution asset - now an ordinary asset without a route to the new one - stays in the collector untouched.
+/// (Monitor only: the pipeline model has a fixed distribution asset.)
+fn distribution_asset_change_probe(out: &mut Out) {
+    let setup = Setup { grace: 2, pair_fees: [50_000_000_000_000_000; 3], liquidity: [(1_000_000_000, 1_000_000_000), (1_000_000_000, 2_000_000_000), (1_000_000, 1_000_000)],
+                        vault_fees: [10_000_000_000_000_000; 3], routes: [0, 1, 0], cw20_btc: false, many_vaults: false };
+    let mut w = build(&setup);
+    let t0 = GENESIS_DEFAULT;
+    let replay = json!({"kind": "distribution_asset_change", "setup": format!("{:?}", setup),
+        "script": "fees 1_000_000 uwhale; NewEpoch; distributor UpdateConfig{distribution_asset: uusdc}; fees 300_000 uwhale + 500_000 uusdc + 40_000 uatom; one day later NewEpoch"});
+    let coll = w.w.collector.to_string();
+    let dist = w.w.distributor.to_string();
+    let ok = |r: Outcome<()>| matches!(r, Outcome::Ok(_));
+    if !ok(apply(&mut w, t0, &Ev::Fee { asset: 0, amount: 1_000_000 })) || !ok(apply(&mut w, t0, &Ev::NewEpoch { who: 1 })) { out.count("dist_asset_probe:setup_failed"); return; }
+    let owner = Addr::unchecked(OWNER);
+    let d = w.w.distributor.clone();
+    let r = w.w.app.execute_contract(owner, d, &white_whale_std::fee_distributor::ExecuteMsg::UpdateConfig { owner: None, bonding_contract_addr: None, fee_collector_addr: None,
+        grace_period: None, distribution_asset: Some(native("uusdc")), epoch_config: None }, &[]);
+    if r.is_err() { out.count("dist_asset_probe:update_rejected"); return; }
+    for (a, x) in [(0usize, 300_000u128), (1, 500_000), (2, 40_000)] { if !ok(apply(&mut w, t0 + 5, &Ev::Fee { asset: a, amount: x })) { return; } }
+    let before = (w.w.bal(&coll, "uwhale"), w.w.bal(&coll, "uusdc"), w.w.bal(&coll, "uatom"), w.w.bal(&dist, "uwhale"), w.w.bal(&dist, "uusdc"));
+    let r2 = ok(apply(&mut w, t0 + DAY_NS + 10, &Ev::NewEpoch { who: 2 }));
+    out.monitor_evals += 1;
+    out.count(if r2 { "dist_asset_probe:second_epoch_created" } else { "dist_asset_probe:second_epoch_rejected" });
+    if !r2 { out.monitor_fail("C10", "no epoch can be created after the distributor's distribution asset was changed", replay); return; }
+    let after = (w.w.bal(&coll, "uwhale"), w.w.bal(&coll, "uusdc"), w.w.bal(&coll, "uatom"), w.w.bal(&dist, "uwhale"), w.w.bal(&dist, "uusdc"));
+    let e = w.w.q_current_epoch();
+    let total_new = asset_amount(&e.total, "uusdc");
+    if e.total.len() != 1 || total_new == 0 { out.monitor_fail("C10", "the new epoch does not consist of the new distribution asset", replay.clone()); }
+    if after.4 - before.4 != total_new { out.monitor_fail("C10", &format!("the distributor received {} of the new distribution asset but the new epoch's total is {}", after.4 - before.4, total_new), replay.clone()); }
+    if after.1 != 0 { out.monitor_fail("C10", "the collector kept some of the (new) distribution asset", replay.clone()); }
+    if after.0 != before.0 || after.3 != before.3 { out.monitor_fail("C10", "the old distribution asset (no route to the new one) moved although it is an ordinary asset now", replay.clone()); }
+    if after.2 != before.2 { out.monitor_fail("C10", "an asset whose route leads to the OLD distribution asset left the collector", replay.clone()); }
 }
